@@ -9,7 +9,8 @@
 // EXTERNAL PRIORITY TABLE prio[] (cmp(a,b) = prio[a] < prio[b], or > when rev=1), initially
 // prio[k] = k.
 //
-// d-ary heap ops:  push k | pop | top | xtop | size | empty | clear | sanity | drain
+// d-ary heap ops:  push k | pop | top | xtop | size | empty | clear | sanity | drain | reserve n | capacity |
+//                  copy (copy ctor + copy assignment) | move (move ctor + move assignment)
 //                  build <it|dq|li|fl|sp|cv|mv> k,k,..   (build_heap(first,last) over vector / deque / list /
 //                  forward_list / a genuine single-pass input iterator; build_heap(const vector&);
 //                  build_heap(vector&&); on ANY heap state)
@@ -287,6 +288,18 @@ struct DaryH : IHeap {
                 }
             }
         }
+        else if (o == "reserve" && t.size() == 2) {
+            long long n = std::stoll(t[1]);
+            if (n < 0 || n > 4096) { vh::answer("bad-op"); return; }
+            h.reserve(static_cast<size_t>(n));
+            if (h.capacity() < static_cast<size_t>(n)) vh::viol("dary" " capacity() below the reserved size after " + line);
+        }
+        else if (o == "capacity") {
+            // the value is the vector's growth policy (not modelled); it must cover the size
+            if (h.capacity() < h.size()) vh::viol("dary" " capacity() < size() after " + line);
+        }
+        else if (o == "copy") { H c(h); H d; d = c; h = d; }              // copy constructor + copy assignment
+        else if (o == "move") { H c(std::move(h)); H d; d = std::move(c); h = std::move(d); }   // move ctor + move assignment
         else if (o == "size") ret = std::to_string(h.size());
         else if (o == "empty") ret = h.empty() ? "1" : "0";
         else if (o == "clear") { h.clear(); ref.clear(); }
@@ -420,6 +433,18 @@ struct AddrH : IHeap {
             h.update(static_cast<KT>(k));
             ref.insert(static_cast<unsigned>(k));
         }
+        else if (o == "reserve" && t.size() == 2) {
+            long long n = std::stoll(t[1]);
+            if (n < 0 || n > 4096) { vh::answer("bad-op"); return; }
+            // (the addressable heap reserves heap_ only when handles_ has to grow: capacity() >= n is not promised)
+            h.reserve(static_cast<size_t>(n));
+        }
+        else if (o == "capacity") {
+            // the value is the vector's growth policy (not modelled); it must cover the size
+            if (h.capacity() < h.size()) vh::viol("addr" " capacity() < size() after " + line);
+        }
+        else if (o == "copy") { H c(h); H d; d = c; h = d; }              // copy constructor + copy assignment
+        else if (o == "move") { H c(std::move(h)); H d; d = std::move(c); h = std::move(d); }   // move ctor + move assignment
         else if (o == "size") ret = std::to_string(h.size());
         else if (o == "empty") ret = h.empty() ? "1" : "0";
         else if (o == "clear") { h.clear(); ref.clear(); }
@@ -570,7 +595,7 @@ struct RadixH : IHeap {
         std::string ret = "ok";
         const wide lo = static_cast<wide>(std::numeric_limits<KT>::min());
         const wide hi = static_cast<wide>(std::numeric_limits<KT>::max());
-        if ((o == "push" || o == "emplace" || o == "getb" || o == "pushb" || o == "emplaceb") && t.size() == 2) {
+        if ((o == "push" || o == "emplace" || o == "emplacekf" || o == "getb" || o == "pushb" || o == "emplaceb") && t.size() == 2) {
             wide k;
             if (!parse_wide(t[1], k) || k < lo || k > hi) { vh::answer("bad-op"); return; }
             // monotonicity: no key below the most recently reported minimum (DESIGN §5)
@@ -582,6 +607,7 @@ struct RadixH : IHeap {
                 size_t idx;
                 if (o == "push") idx = h.push(std::make_pair(key, MPay(p)));
                 else if (o == "emplace") idx = h.emplace(key, key, MPay(p));
+                else if (o == "emplacekf") idx = h.emplace_keyfirst(key, MPay(p));
                 else {
                     // the hint overloads, with the bucket index the API documents: get_bucket / get_bucket_key
                     std::pair<KT, MPay> val(key, MPay(p));
@@ -662,6 +688,8 @@ struct RadixH : IHeap {
         else if (o == "size") ret = std::to_string(h.size());
         else if (o == "empty") ret = h.empty() ? "1" : "0";
         else if (o == "clear") { h.clear(); ref.clear(); pay.clear(); has_frontier = false; }
+        else if (o == "copy") { H c(h); H d; d = c; h = d; }
+        else if (o == "move") { H c(std::move(h)); H d; d = std::move(c); h = std::move(d); }
         else { vh::answer("bad-op"); return; }
         vh::answer(ret + " ; " + dump());
         check(line);
